@@ -2,6 +2,7 @@
 From Coq Require Import List Arith NArith Bool Lia.
 Import ListNotations.
 From Orca Require Import Util Reindex Reorg ReidxProofs CheckReidx Names CheckNames.
+From Orca Require ReidxBind ReidxInv.
 Local Open Scope N_scope.
 
 (* ------------------------------------------------------------------------------------------ *)
@@ -347,102 +348,83 @@ Proof.
         -- exact (TailR p it Hn Hl Hd Hk).
 Qed.
 
-(* live function imports: the entries of the import vector that occupy a function index of the output *)
-Definition live_fi (i : imp) : bool := negb (i_del i) && N.eqb (i_sp i) 0.
-Definition func_imports_before (k : nat) (l : list imp) : N := lenN (filter live_fi (firstn k l)).
+(* emitted function imports: the entries of the emission order that occupy a function index of the output *)
+Definition is_fn_entry (imports : list imp) (k : N) : bool := N.eqb (fst (import_at imports k)) 0.
+Definition emitted_funcs_before (imports : list imp) (order : list N) (j : nat) : N :=
+  lenN (filter (is_fn_entry imports) (firstn j order)).
 
-Lemma fib_S k i l : func_imports_before (S k) (i :: l) = (if live_fi i then 1 else 0) + func_imports_before k l.
-Proof. unfold func_imports_before, lenN. cbn [firstn filter]. destruct (live_fi i); cbn [length]; lia. Qed.
-Lemma fib_0 l : func_imports_before 0 l = 0.
-Proof. reflexivity. Qed.
+Lemma efb_S imports k o j : emitted_funcs_before imports (k :: o) (S j)
+  = (if is_fn_entry imports k then 1 else 0) + emitted_funcs_before imports o j.
+Proof. unfold emitted_funcs_before, lenN. cbn [firstn filter]. destruct (is_fn_entry imports k); cbn [length]; lia. Qed.
 
-Lemma emit_imp_names_spec : forall l nm pos idx q t,
-  In (q, t) (emit_imp_names pos idx l nm) <->
-  exists k im, nth_error l k = Some im /\ i_sp im = 0 /\ i_del im = false /\
-               lookup nm (pos + N.of_nat k) = Some t /\ q = idx + func_imports_before k l.
+Lemma emit_imp_names_spec imports nm : forall order idx q t,
+  In (q, t) (emit_imp_names idx imports order nm) <->
+  exists j k, nth_error order j = Some k /\ is_fn_entry imports k = true /\
+              lookup nm k = Some t /\ q = idx + emitted_funcs_before imports order j.
 Proof.
-  induction l as [|x l IH]; intros nm pos idx q t; cbn [emit_imp_names].
-  - split; [intros []|]. intros (k & im & Hn & _). destruct k; discriminate.
-  - assert (Tail : forall idx', idx' = idx + (if live_fi x then 1 else 0) ->
-                   In (q, t) (emit_imp_names (pos + 1) idx' l nm) ->
-                   exists k im, nth_error (x :: l) k = Some im /\ i_sp im = 0 /\ i_del im = false /\
-                                lookup nm (pos + N.of_nat k) = Some t /\ q = idx + func_imports_before k (x :: l)).
-    { intros idx' Ei H. apply IH in H as (k & im & Hn & Hs & Hd & Hk & Hq). exists (S k), im. cbn [nth_error].
-      repeat split; try assumption.
-      - replace (pos + N.of_nat (S k)) with (pos + 1 + N.of_nat k) by lia. exact Hk.
-      - rewrite fib_S. lia. }
-    assert (TailR : forall idx' k im, idx' = idx + (if live_fi x then 1 else 0) ->
-                    nth_error l k = Some im -> i_sp im = 0 -> i_del im = false ->
-                    lookup nm (pos + N.of_nat (S k)) = Some t ->
-                    In (idx + func_imports_before (S k) (x :: l), t) (emit_imp_names (pos + 1) idx' l nm)).
-    { intros idx' k im Ei Hn Hs Hd Hk. apply IH. exists k, im. repeat split; try assumption.
-      - replace (pos + 1 + N.of_nat k) with (pos + N.of_nat (S k)) by lia. exact Hk.
-      - rewrite fib_S. lia. }
-    unfold live_fi in Tail, TailR.
-    destruct (i_del x) eqn:Ed; cbn [negb andb] in Tail, TailR.
-    + split; [apply Tail; lia|]. intros (k & im & Hn & Hs & Hd & Hk & ->). destruct k as [|k]; cbn in Hn.
-      * inversion Hn; subst. congruence.
-      * apply (TailR _ k im); auto; lia.
-    + destruct (N.eqb (i_sp x) 0) eqn:Es.
-      * destruct (lookup nm pos) as [t0|] eqn:Ek.
-        -- split.
-           ++ intros [H|H]; [|apply (Tail (idx + 1)); [lia|exact H]]. inversion H; subst.
-              exists 0%nat, x. cbn. repeat split; try assumption.
-              ** apply N.eqb_eq. exact Es.
-              ** rewrite N.add_0_r. exact Ek.
-              ** unfold func_imports_before, lenN. cbn. lia.
-           ++ intros (k & im & Hn & Hs & Hd & Hk & ->). destruct k as [|k]; cbn in Hn.
-              ** inversion Hn; subst. left. rewrite N.add_0_r in Hk. rewrite Hk in Ek. inversion Ek; subst.
-                 rewrite fib_0. f_equal. lia.
-              ** right. apply (TailR _ k im); auto.
-        -- split; [apply Tail; lia|]. intros (k & im & Hn & Hs & Hd & Hk & ->). destruct k as [|k]; cbn in Hn.
-           ++ inversion Hn; subst. rewrite N.add_0_r in Hk. congruence.
-           ++ apply (TailR _ k im); auto.
-      * split; [apply Tail; lia|]. intros (k & im & Hn & Hs & Hd & Hk & ->). destruct k as [|k]; cbn in Hn.
-        -- inversion Hn; subst. rewrite Hs in Es. discriminate.
-        -- apply (TailR _ k im); auto; lia.
+  induction order as [|k o IH]; intros idx q t; cbn [emit_imp_names].
+  - split; [intros []|]. intros (j & k & Hn & _). destruct j; discriminate.
+  - fold (is_fn_entry imports k).
+    assert (Tail : forall idx', idx' = idx + (if is_fn_entry imports k then 1 else 0) ->
+                   (In (q, t) (emit_imp_names idx' imports o nm) <->
+                    exists j k', nth_error o j = Some k' /\ is_fn_entry imports k' = true /\ lookup nm k' = Some t /\
+                                 q = idx + emitted_funcs_before imports (k :: o) (S j))).
+    { intros idx' Ei. rewrite IH. split; intros (j & k' & Hn & Hf & Hk & Hq); exists j, k'; repeat split; try assumption;
+        rewrite efb_S in *; lia. }
+    assert (Split : (exists j k', nth_error (k :: o) j = Some k' /\ is_fn_entry imports k' = true /\ lookup nm k' = Some t /\
+                                  q = idx + emitted_funcs_before imports (k :: o) j) <->
+                    (is_fn_entry imports k = true /\ lookup nm k = Some t /\ q = idx) \/
+                    (exists j k', nth_error o j = Some k' /\ is_fn_entry imports k' = true /\ lookup nm k' = Some t /\
+                                  q = idx + emitted_funcs_before imports (k :: o) (S j))).
+    { split.
+      - intros (j & k' & Hn & Hf & Hk & Hq). destruct j as [|j]; cbn [nth_error] in Hn.
+        + inversion Hn; subst k'. left. repeat split; try assumption. rewrite Hq. unfold emitted_funcs_before. cbn. lia.
+        + right. exists j, k'. auto.
+      - intros [(Hf & Hk & Hq)|(j & k' & Hn & Hf & Hk & Hq)].
+        + exists 0%nat, k. repeat split; try assumption. rewrite Hq. unfold emitted_funcs_before. cbn. lia.
+        + exists (S j), k'. auto. }
+    rewrite Split. destruct (is_fn_entry imports k) eqn:Ef.
+    + destruct (lookup nm k) as [t0|] eqn:Ek.
+      * cbn [In]. rewrite (Tail (idx + 1) eq_refl). split.
+        -- intros [H|H]; [left; inversion H; subst; auto|right; exact H].
+        -- intros [(_ & Hk & Hq)|H]; [left; inversion Hk; subst; reflexivity|right; exact H].
+      * rewrite (Tail (idx + 1) eq_refl). split; [intros H; right; exact H|]. intros [(_ & Hk & _)|H]; [discriminate|exact H].
+    + rewrite (Tail idx) by lia. split; [intros H; right; exact H|]. intros [(Hf & _)|H]; [discriminate|exact H].
 Qed.
 
 (* FULL: for every history, the rebuilt function-name map consists exactly of
    - for every live local function that carries a body name: (its position in the function vector after
      recalculate_ids, the name) - and that position is the index the id map sends the function's stored id to, i.e.
      the index every `call` / `ref.func` / export / start / element reference to the function is rewritten to;
-   - for every live function import that carries a custom name: (its position among the live function imports
-     in import-section order, the name) - the function index Wasm's rule gives the import (see
-     [import_name_index_is_wasm_index]). *)
+   - for every emitted function import whose entry carries a custom name: (its position among the emitted function
+     imports, the name) - the function index Wasm's rule gives the import (see [import_name_index_is_wasm_index]);
+     by [names_follow_import_items] this is also the index the id map sends the import's function id to. *)
 Theorem names_follow_functions :
-  forall (c : ncase) (s0 s : nst) (h : list nop) (rets : list (option N)) (lf : list item) (mf : list (N * N)),
+  forall (c : ncase) (s0 s : nst) (h : list nop) (rets : list (option N)) (lf lg lm : list item) (mf : list (N * N)),
     init_state c = Ok s0 -> nrun_pref s0 h [] = (s, rets, false) ->
     index_space (m_f (ns_m s)) = Ok (lf, mf) ->
-    forall q t, In (q, t) (emit_fnames s lf) <->
+    forall q t, In (q, t) (emit_fnames s lf lg lm) <->
       (exists p it, nth_error lf p = Some it /\ is_local it = true /\ it_del it = false /\
                     lookup (ns_body s) (it_id it) = Some t /\ lookup mf (it_id it) = Some q /\ q = N.of_nat p)
-      \/ (exists k im, nth_error (m_imports (ns_m s)) k = Some im /\ i_sp im = 0 /\ i_del im = false /\
-                       lookup (ns_imp s) (N.of_nat k) = Some t /\ q = func_imports_before k (m_imports (ns_m s))).
+      \/ (exists j k, nth_error (emitted_imports (m_imports (ns_m s)) lf lg lm) j = Some k /\
+                      is_fn_entry (m_imports (ns_m s)) k = true /\ lookup (ns_imp s) k = Some t /\
+                      q = emitted_funcs_before (m_imports (ns_m s)) (emitted_imports (m_imports (ns_m s)) lf lg lm) j).
 Proof.
-  intros c s0 s h rets lf mf H0 Hrun Hidx q t.
+  intros c s0 s h rets lf lg lm mf H0 Hrun Hidx q t.
   pose proof (reachable_inv _ _ _ _ _ _ H0 Hrun) as (Hf & _ & _).
   destruct (index_space_NoDup _ _ _ Hf Hidx) as [Hnd ->].
   unfold emit_fnames. rewrite in_app_iff, emit_imp_names_spec, emit_body_names_spec. split.
-  - intros [(k & im & Hn & Hs & Hd & Hk & Hq)|(p & it & Hn & Hl & Hd & Hk & Hq)].
-    + right. exists k, im. rewrite !N.add_0_l in *. auto.
+  - intros [(j & k & Hn & Hs & Hk & Hq)|(p & it & Hn & Hl & Hd & Hk & Hq)].
+    + right. exists j, k. rewrite !N.add_0_l in *. auto.
     + left. exists p, it. rewrite N.add_0_l in Hq. subst q. repeat split; try assumption.
       exact (mapping_pos lf p it Hnd Hn).
-  - intros [(p & it & Hn & Hl & Hd & Hk & _ & Hq)|(k & im & Hn & Hs & Hd & Hk & Hq)].
+  - intros [(p & it & Hn & Hl & Hd & Hk & _ & Hq)|(j & k & Hn & Hs & Hk & Hq)].
     + right. exists p, it. rewrite N.add_0_l. auto.
-    + left. exists k, im. rewrite !N.add_0_l. auto.
+    + left. exists j, k. rewrite !N.add_0_l. auto.
 Qed.
 
 (* ------------------------------------------------------------------------------------------ *)
 (* 5. the index under which an import's name is emitted is the import's function index by Wasm's rule *)
-Lemma func_import_fps l :
-  map snd (filter (fun i : N * N => N.eqb (fst i) 0) (map (fun i => (i_sp i, i_fp i)) (filter (fun i => negb (i_del i)) l)))
-  = map i_fp (filter live_fi l).
-Proof.
-  induction l as [|x l IH]; [reflexivity|]. unfold live_fi in *. cbn [filter].
-  destruct (i_del x); cbn [negb andb map filter fst]; [exact IH|].
-  destruct (N.eqb (i_sp x) 0); cbn [map snd]; [f_equal|]; exact IH.
-Qed.
 Lemma nth_filter_before {A} (f : A -> bool) : forall l k x,
   nth_error l k = Some x -> f x = true -> nth_error (filter f l) (length (filter f (firstn k l))) = Some x.
 Proof.
@@ -452,23 +434,119 @@ Proof.
   - cbn [firstn filter]. destruct (f y); cbn [length nth_error]; exact (IH k x Hn Hf).
 Qed.
 
-Theorem import_name_index_is_wasm_index m dead sites e k im :
-  encode m dead sites = Ok e -> nth_error (m_imports m) k = Some im -> i_sp im = 0 -> i_del im = false ->
-  designates e SF (func_imports_before k (m_imports m)) = Some (i_fp im).
+Theorem import_name_index_is_wasm_index m dead sites e lf mf lg mg lm mm j k :
+  encode m dead sites = Ok e ->
+  index_space (m_f m) = Ok (lf, mf) -> index_space (m_g m) = Ok (lg, mg) -> index_space (m_m m) = Ok (lm, mm) ->
+  nth_error (emitted_imports (m_imports m) lf lg lm) j = Some k -> is_fn_entry (m_imports m) k = true ->
+  designates e SF (emitted_funcs_before (m_imports m) (emitted_imports (m_imports m) lf lg lm) j)
+  = Some (snd (import_at (m_imports m) k)).
 Proof.
-  intros He Hn Hs Hd. unfold encode in He.
-  destruct (index_space (m_f m)) as [[lf mf]|]; [|discriminate].
-  destruct (index_space (m_g m)) as [[lg mg]|]; [|discriminate].
-  destruct (index_space (m_m m)) as [[lm mm]|]; [|discriminate].
-  destruct (emit_sites _ _ _ _ _ _ _ _) as [ss|]; [|discriminate].
+  intros He Hf Hg Hm Hn Hs. unfold encode in He. rewrite Hf, Hg, Hm in He.
+  match type of He with match ?X with _ => _ end = _ => destruct X; [|discriminate] end.
   inversion He; subst e; clear He.
   unfold designates, space_of, nthN. cbn [e_imports e_funcs sp_code].
-  rewrite func_import_fps. unfold func_imports_before. rewrite lenN_length.
-  assert (Hlive : live_fi im = true) by (unfold live_fi; rewrite Hd, Hs; reflexivity).
-  pose proof (nth_filter_before live_fi _ _ _ Hn Hlive) as Hnth.
+  set (order := emitted_imports (m_imports m) lf lg lm) in *.
+  assert (Efilt : forall L, filter (fun i : N * N => N.eqb (fst i) 0) (map (import_at (m_imports m)) L)
+                            = map (import_at (m_imports m)) (filter (is_fn_entry (m_imports m)) L)).
+  { induction L as [|a0 L IH]; [reflexivity|]. cbn [map filter]. unfold is_fn_entry at 1.
+    destruct (N.eqb (fst (import_at (m_imports m) a0)) 0); cbn [map]; [f_equal|]; exact IH. }
+  rewrite Efilt. unfold emitted_funcs_before. rewrite lenN_length.
+  pose proof (nth_filter_before (is_fn_entry (m_imports m)) _ _ _ Hn Hs) as Hnth.
   rewrite nth_error_app1.
-  - rewrite nth_error_map, Hnth. reflexivity.
-  - rewrite map_length. apply nth_error_Some. rewrite Hnth. discriminate.
+  - rewrite !nth_error_map, Hnth. reflexivity.
+  - rewrite !map_length. apply nth_error_Some. rewrite Hnth. discriminate.
+Qed.
+
+
+(* ------------------------------------------------------------------------------------------ *)
+(* 5'. the name of an imported function follows the function: the import item at position p of the recomputed
+   function vector - p is the index the id map sends its stored id to - gets the custom name of its import entry
+   at index p.  Uses the linkage invariant of Proofs/ReidxInv.v (the function slots of the import section are filled
+   with exactly the live import items of the function space, in index order). *)
+Lemma nstep_wf s o s' r : nstep s o = Ok (s', r) -> ReidxInv.wf (ns_m s) -> ReidxInv.wf (ns_m s').
+Proof.
+  intros H W. destruct o as [e b|id t|id t|id t|k t].
+  - apply nstep_edit_m in H. exact (ReidxInv.step_wf _ _ _ _ W H).
+  - unfold nstep, imp_set_fn_name in H. break_match_in H; inversion H; subst; exact W.
+  - unfold nstep in H. break_match_in H; inversion H; subst; exact W.
+  - unfold nstep, imp_set_fn_name in H. break_match_in H; inversion H; subst; exact W.
+  - unfold nstep in H. break_match_in H; inversion H; subst; exact W.
+Qed.
+Lemma nrun_pref_wf : forall h s rets s' rets' p,
+  nrun_pref s h rets = (s', rets', p) -> ReidxInv.wf (ns_m s) -> ReidxInv.wf (ns_m s').
+Proof.
+  induction h as [|o h IH]; intros s rets s' rets' p H W; cbn in H.
+  - inversion H; subst. exact W.
+  - destruct (nstep s o) as [[s1 r]|w] eqn:E.
+    + exact (IH _ _ _ _ _ H (nstep_wf _ _ _ _ E W)).
+    + inversion H; subst. exact W.
+Qed.
+Theorem reachable_wf c s0 h s rets p :
+  init_state c = Ok s0 -> nrun_pref s0 h [] = (s, rets, p) -> ReidxInv.wf (ns_m s).
+Proof.
+  intros H0 H. apply (nrun_pref_wf _ _ _ _ _ _ H).
+  unfold init_state, parse_names in H0. destruct (parse_fnames _ _ _ _) as [[i b]|]; [|discriminate].
+  inversion H0; subst. cbn [ns_m]. apply ReidxInv.wf_mk_base.
+Qed.
+
+Lemma nth_filter_inv {A} (f : A -> bool) : forall L p x,
+  nth_error (filter f L) p = Some x ->
+  exists j, nth_error L j = Some x /\ f x = true /\ length (filter f (firstn j L)) = p.
+Proof.
+  induction L as [|y L IH]; intros p x H; [destruct p; discriminate|].
+  cbn [filter] in H. destruct (f y) eqn:Ef.
+  - destruct p as [|p]; cbn [nth_error] in H.
+    + inversion H; subst. exists 0%nat. repeat split; auto.
+    + destruct (IH p x H) as (j & Hj & Hf & Hl). exists (S j). cbn [nth_error firstn filter]. rewrite Ef. cbn [length].
+      repeat split; auto.
+  - destruct (IH p x H) as (j & Hj & Hf & Hl). exists (S j). cbn [nth_error firstn filter]. rewrite Ef. auto.
+Qed.
+Lemma live_imp_ks_nth : forall L p it k,
+  (forall q i, (q < p)%nat -> nth_error L q = Some i -> is_import i = true /\ it_del i = false) ->
+  nth_error L p = Some it -> it_imp it = Some k -> it_del it = false ->
+  nth_error (live_imp_ks L) p = Some k.
+Proof.
+  induction L as [|a L IH]; intros p it k Hbefore Hn Hi Hd; [destruct p; discriminate|].
+  unfold live_imp_ks. cbn [flat_map]. fold (live_imp_ks L). destruct p as [|p]; cbn [nth_error] in Hn.
+  - inversion Hn; subst a. rewrite Hi, Hd. reflexivity.
+  - destruct (Hbefore 0%nat a (Nat.lt_0_succ p) eq_refl) as [Ha Hda].
+    unfold is_import, is_local in Ha. destruct (it_imp a) as [ka|]; [|discriminate]. rewrite Hda. cbn [app nth_error].
+    apply (IH p it k); try assumption. intros q i Hq Hqi. apply (Hbefore (S q) i); [lia|exact Hqi].
+Qed.
+
+Theorem names_follow_import_items :
+  forall (c : ncase) (s0 s : nst) (h : list nop) (rets : list (option N)) lf mf lg mg lm mm,
+    init_state c = Ok s0 -> nrun_pref s0 h [] = (s, rets, false) ->
+    index_space (m_f (ns_m s)) = Ok (lf, mf) -> index_space (m_g (ns_m s)) = Ok (lg, mg) ->
+    index_space (m_m (ns_m s)) = Ok (lm, mm) ->
+    forall p it k t, nth_error lf p = Some it -> it_imp it = Some k -> lookup (ns_imp s) k = Some t ->
+      In (N.of_nat p, t) (emit_fnames s lf lg lm) /\ lookup mf (it_id it) = Some (N.of_nat p).
+Proof.
+  intros c s0 s h rets lf mf lg mg lm mm H0 Hrun Hf Hg Hm p it k t Hn Hi Hk.
+  pose proof (reachable_wf _ _ _ _ _ _ H0 Hrun) as W.
+  pose proof (reachable_inv _ _ _ _ _ _ H0 Hrun) as (Hinv & _ & _).
+  destruct (index_space_NoDup _ _ _ Hinv Hf) as [Hnd Emf].
+  split; [|rewrite Emf; exact (mapping_pos lf p it Hnd Hn)].
+  pose proof (proj1 (ReidxInv.index_space_wf _ _ _ (W SF) _ _ Hf)) as El. cbn [get_sp] in El.
+  set (orig := ReidxInv.origN (m_f (ns_m s))) in *. set (items := s_items (m_f (ns_m s))) in *.
+  assert (Hd : it_del it = false) by (apply (spec_no_deleted orig items); rewrite <- El; eapply nth_error_In; exact Hn).
+  (* everything in front of an import item of the recomputed vector is a live import item *)
+  assert (Hks : nth_error (live_imp_ks lf) p = Some k).
+  { apply (live_imp_ks_nth lf p it k); try assumption.
+    intros q i Hq Hqi. rewrite El, ReidxBind.spec_split in Hqi, Hn.
+    assert (Hp : (p < length (ReidxBind.Ipart orig items))%nat).
+    { destruct (Nat.lt_ge_cases p (length (ReidxBind.Ipart orig items))) as [Hlt|Hge]; [exact Hlt|exfalso].
+      rewrite nth_error_app2 in Hn by exact Hge.
+      destruct (ReidxBind.Lpart_locals _ _ it (nth_error_In _ _ Hn)) as [Hl _].
+      unfold is_local in Hl. rewrite Hi in Hl. discriminate. }
+    rewrite nth_error_app1 in Hqi by lia. exact (ReidxBind.Ipart_imports _ _ i (nth_error_In _ _ Hqi)). }
+  pose proof (ReidxInv.wf_emitted_imports_kind (ns_m s) SF W) as Ekind.
+  unfold ReidxInv.ispace_m in Ekind. cbn [get_sp sp_code] in Ekind. rewrite Hf, Hg, Hm in Ekind. cbn [fst] in Ekind.
+  rewrite <- Ekind in Hks.
+  destruct (nth_filter_inv _ _ _ _ Hks) as (j & Hj & Hfn & Hlen).
+  unfold emit_fnames. apply in_or_app. left. apply emit_imp_names_spec.
+  exists j, k. repeat split; try assumption.
+  unfold emitted_funcs_before, lenN, is_fn_entry. rewrite Hlen. lia.
 Qed.
 
 (* ------------------------------------------------------------------------------------------ *)
@@ -515,7 +593,8 @@ Theorem C29_partial :
 Proof.
   intros c s0 s h rets e n lf mf lg mg _ _ Henc Hf Hg Ig If.
   unfold nencode in Henc. destruct (encode _ _ _) as [e'|]; [|discriminate].
-  rewrite Hf in Henc. inversion Henc; subst e n; clear Henc. cbn [emit_names n_globals n_locals].
+  rewrite Hf, Hg in Henc. destruct (index_space (m_m (ns_m s))) as [[lm mm]|]; [|discriminate].
+  inversion Henc; subst e n; clear Henc. cbn [emit_names n_globals n_locals].
   apply index_space_mapping in Hf, Hg. subst mf mg.
   repeat split.
   - intros q t Hin. exact (mapping_inv _ _ _ (Ig q t Hin)).
